@@ -113,13 +113,19 @@ fn c07_visit_closest_queries_every_unvisited_candidate_exactly_once() {
     let have_a: bool = kani::any();
     let have_b: bool = kani::any();
     // the accumulator is built directly, in its order (that add() keeps that order is C11's
-    // obligation); this keeps the unwinding bound at the number of candidates
+    // obligation), over a STACK-backed buffer: CBMC folds loops over stack slices but runs loops over
+    // a heap Vec<Node> to the unwinding bound (this obligation exhausted 10 GB on a heap buffer)
+    let mut slab: [core::mem::MaybeUninit<Node>; 2] = unsafe { core::mem::MaybeUninit::uninit().assume_init() };
+    let mut n = 0usize;
     if have_a {
-        crate::common::verif_kani::closest_nodes::push_raw(&mut q.closest, a.clone());
+        slab[n].write(a.clone());
+        n += 1;
     }
     if have_b {
-        crate::common::verif_kani::closest_nodes::push_raw(&mut q.closest, b.clone());
+        slab[n].write(b.clone());
+        n += 1;
     }
+    q.closest = crate::common::verif_kani::closest_nodes::with_nodes(id1(0), unsafe { Vec::from_raw_parts(slab.as_mut_ptr() as *mut Node, n, 2) });
     let a_visited: bool = kani::any();
     if a_visited {
         q.visited.insert(a.address());
